@@ -1,0 +1,37 @@
+//go:build verif
+
+package postscript
+
+// VerifStep is a snapshot of interpreter state taken at every executed
+// operation.  It exists only in builds with the "verif" tag and is used by
+// external runtime monitors.
+type VerifStep struct {
+	NumOps       int
+	MaxOps       int
+	ExecDepth    int
+	StackLen     int
+	DictStackLen int
+	OpenProcs    int
+	ErrLevel     int
+	Scanners     int
+}
+
+// VerifStepHook, when non-nil, is called after every increment of
+// Interpreter.NumOps (before the budget comparison).
+var VerifStepHook func(intp *Interpreter, s VerifStep)
+
+func (intp *Interpreter) verifStep() {
+	if VerifStepHook == nil {
+		return
+	}
+	VerifStepHook(intp, VerifStep{
+		NumOps:       intp.NumOps,
+		MaxOps:       intp.MaxOps,
+		ExecDepth:    intp.execStackDepth,
+		StackLen:     len(intp.Stack),
+		DictStackLen: len(intp.DictStack),
+		OpenProcs:    len(intp.procStart),
+		ErrLevel:     len(intp.errors),
+		Scanners:     len(intp.scanners),
+	})
+}
